@@ -2,7 +2,10 @@ module verifharness
 
 go 1.26.3
 
-require github.com/mycoria/mycoria v0.0.0
+require (
+	github.com/mycoria/mycoria v0.0.0
+	golang.org/x/crypto v0.54.0
+)
 
 require (
 	github.com/fxamacker/cbor/v2 v2.9.2 // indirect
@@ -17,7 +20,6 @@ require (
 	github.com/x448/float16 v0.8.4 // indirect
 	github.com/zeebo/blake3 v0.2.4 // indirect
 	go4.org/netipx v0.0.0-20231129151722-fdeea329fbba // indirect
-	golang.org/x/crypto v0.54.0 // indirect
 	golang.org/x/exp v0.0.0-20260709172345-9ea1abe57597 // indirect
 	golang.org/x/net v0.57.0 // indirect
 	golang.org/x/sys v0.47.0 // indirect
